@@ -21,18 +21,25 @@ LOG (decisions)
     Top.v (functions, model).  The two facts the code does NOT check dynamically and the proof supplies:
     the outputs of one node are pairwise distinct values; initializer values never get a producer.
   - C17_deser_function_of_proto: the outcome depends on the proto only (the model has no file-system part).
-  - C17_ser_fixpoint is NOT proved (stated in Property.v); it is evaluated on every case inside Coq
-    (Canon.model_fixpoint) and compared with the implementation.  It WAS refuted by the faithful model:
-    finding fixpoint-initializer-empty-value-info (type-less value_info entry naming an initializer), fixed
-    in /repo by 420823a (proposed_fixes/C17-initializer-empty-value-info.diff); Model.fill_pay follows the fix,
-    the witness is corpus/C17/fixpoint-initializer-empty-value-info.json and an Example in Property.v.
+  - C17_ser_fixpoint_partial (PROVED): for every proto whose deserialized IR is well scoped (serializable_tm of
+    C03/TreeF.v: no dangling / duplicated / empty value names; duplicated initializers or attributes, stale
+    value_info, unsorted/cyclic nodes, trailing empty outputs are allowed) and idempotent leaf normalisation
+    (np_idem): deser (ser (deser p)) succeeds and serializes to the same proto.  The unconditional statement
+    (placeholders, duplicated/empty input names, unknown outputs: generalised unfolding C17/Tree2.v, symbolic
+    unfolding C17/PUnfold.v) is being proved; its component statements are validated by vm_compute on every
+    accepted case (see Fix2Defs.w2_parts / Tree2.fix2_statement_b) and Canon.model_fixpoint is compared with the
+    implementation on every case.
+  - Findings of the fixpoint clause: fixpoint-initializer-empty-value-info (fixed in /repo by 420823a; Model.fill_pay
+    follows the fix) and reser-duplicate-initializer-bad-dtype (KNOWN, found by the proof attempt: a repeated
+    initializer name attaches the later tensor to the earlier value without reading its dtype, so
+    to_proto(from_proto(p)) may not deserialize; proposed_fixes/C17-duplicate-initializer-last-wins.diff).
 * Tie: correspondence on every run (quick 500 cases + corpus, thorough 12000): mutation stream over generated
-  valid protos (28 field-level mutation kinds, 1-5 per case: rename to existing/empty/new names, drop, duplicate,
+  valid protos (29 field-level mutation kinds, 1-5 per case: rename to existing/empty/new names, drop, duplicate,
   shuffle/reverse/cyclic nodes, unknown enum values in elem_type/data_type/attribute type, inconsistent tensor
   fields, absurd external-data entries, invalid UTF-8 in bytes fields, cleared/map/sequence-without-elem types,
   repeated outputs, outputs named like inputs/initializers, nodes moved into subgraphs, scope shadowing,
   duplicated/unnamed initializers, duplicate attributes/functions, unknown function outputs, ref_attr_name on
-  graph attributes), byte-level mutations parsed by protobuf first, and unconstrained random protos.
+  graph attributes, subgraph outputs produced only in an enclosing graph), byte-level mutations parsed by protobuf first, and unconstrained random protos.
   Compared inside Coq per case: raise-vs-return, Canon.canon of the returned IR (every public link with
   first-visit labels incl. uses order, producer/index, flags, owner, const tensor, payload), the re-serialized
   proto, and the model's fixpoint verdict against the implementation's.
@@ -573,6 +580,8 @@ def mutate(m, rng, kind=None):
             t = g.initializer.add()
             t.CopyFrom(rng.choice(g.initializer))
             t.raw_data = b"\x01\x02\x03\x04"
+            if rng.random() < 0.3:
+                t.data_type = rng.choice([9999, 77])      # the repeated tensor has an unreadable dtype
         else:
             return None
     except (ValueError, TypeError, IndexError):
@@ -1153,6 +1162,15 @@ def repair_known_sites(p):
       initializer that is not a graph input (it erases the type the deserializer derived from the tensor)."""
     q = copy.deepcopy(p)
     changed = False
+    # reser-duplicate-initializer-bad-dtype: keep only the LAST initializer of every repeated name
+    for g in all_graphs(q):
+        names = [t.name for t in g.initializer]
+        if len(set(names)) != len(names):
+            last = {n: i for i, n in enumerate(names)}
+            keep = [copy.deepcopy(t) for i, t in enumerate(g.initializer) if last[t.name] == i]
+            del g.initializer[:]
+            g.initializer.extend(keep)
+            changed = True
     for g in all_graphs(q):
         ins = {i.name for i in g.input}
         inits = {t.name for t in g.initializer} - ins
